@@ -212,6 +212,9 @@ func kfArraySlice(args []KeyBuilderStage) (KeyBuilderStage, error) {
 		realStart := sliceStart
 		if realStart < 0 { // Negative start index starts from end
 			realStart += strings.Count(splitter.S, ArraySeparatorString) + 1
+			if realStart < 0 { // further back than the list is long: start at the first element
+				realStart = 0
+			}
 		}
 
 		for i := 0; (sliceLen < 0 || i < realStart+sliceLen) && !splitter.Done(); i++ {
@@ -310,7 +313,7 @@ func kfArrayFor(args []KeyBuilderStage) (KeyBuilderStage, error) {
 				break
 			}
 
-			if sb.Len() > 0 {
+			if idx > 0 { // by position, so that empty elements keep their separator
 				sb.WriteRune(ArraySeparator)
 			}
 			sb.WriteString(val)
